@@ -32,6 +32,7 @@ package deepcopy
 //@ abstract: text class=Ident
 
 //@ func (g *gen) genField(fieldType types.Type, thisField, thatField string) (err error)
+//@ thorough-arity: 4
 //@ abstract: stmt effect
 //@ param thisField: classes=Primary,Star type=fieldType
 //@ param thatField: classes=Primary,Star type=fieldType
@@ -54,6 +55,7 @@ package deepcopy
 // share no memory); it writes *dst and freshly allocated cells only. For slice and
 // map types the destination is filled in place: final(dst) is its content afterwards.
 //@ func (g *gen) genFunc(typ types.Type) (err error)
+//@ thorough-arity: 4
 //@ emits: decls
 //@ serves: deepcopy len=1 typ=typs[0]
 //@ o-sig: (dst, src $typ) ()
